@@ -62,6 +62,71 @@ example : ∃ s, Reach (sys true 1 false false
         = some [.ok, .ok, .ok, .ok, .ok, .ok, .ok, .ioerr] := by decide
     rw [hs] at this; simpa using this
 
+/-! ### residue of the temporary directory after a whole history -/
+
+theorem spec_has_eof (ac : Bool) : ∀ (h : List Cycle) (outs : List Out), HistorySpec ac h outs →
+    ∀ cy ∈ h, cy.pushes.length < cy.pulls → ∃ o ∈ outs, o.res = .eof := by
+  intro h
+  induction h with
+  | nil => intro outs _ cy hcy; simp at hcy
+  | cons c0 rest ih =>
+    intro outs hs cy hcy hdrain
+    obtain ⟨ys, outs', hys, rfl, hrest⟩ := hs
+    rcases List.mem_cons.mp hcy with rfl | hmem
+    · have hlen : ys.length = cy.pushes.length := hys.1.length_eq
+      refine ⟨⟨.eof, none, if ac then 0 else cy.pushes.length, if ac then 0 else cy.pushes.length⟩, ?_, rfl⟩
+      apply List.mem_append_left
+      unfold specCycle
+      simp only [List.mem_append, List.mem_cons, List.mem_map, List.mem_range]
+      right; right; left
+      refine ⟨cy.pushes.length, hdrain, ?_⟩
+      rw [List.getElem?_eq_none (by omega)]
+    · obtain ⟨o, ho, hr⟩ := ih outs' hrest cy hmem hdrain
+      exact ⟨o, List.mem_append_right _ ho, hr⟩
+
+/-- **Draining a sorter that has AutoClean set removes its temporary directory**, for whole
+    histories: a fault-free well-formed history in which some cycle was pulled to io.EOF
+    (`pulls > pushes`), either mode, any schedule — when the caller has returned from its last
+    call the directory is gone. -/
+theorem history_autoclean_drain_removes_dir (c : Nat) (hc : 1 ≤ c) (conc ac : Bool) (h : List Cycle)
+    (hwf : wellFormed ac h = true) (cy : Cycle) (hcy : cy ∈ h) (hdrain : cy.pushes.length < cy.pulls)
+    {s : CState} (hr : Reach (sys conc c ac true (histOps h) none) s) (hfin : finished s = true) :
+    s.dirExists = false := by
+  have hacl : s.autoClean = true := autoClean_const hr
+  apply (reach_EofDir hr).2 hacl
+  have hspec := Biogo.Properties.C12_history.conc_history_sorted_multiset c hc conc ac true h hwf hr hfin
+  obtain ⟨o, ho, hres⟩ := spec_has_eof ac h _ hspec cy hcy hdrain
+  exact ⟨o, List.mem_reverse.mp ho, hres⟩
+
+/-- **Draining with AutoClear set leaves no run files**, for whole histories: a fault-free
+    well-formed history whose last cycle was pulled to io.EOF (AutoClean not set), either mode,
+    any schedule — no run file of any cycle is left in the temporary directory. -/
+theorem history_autoclear_drain_no_runs (c : Nat) (hc : 1 ≤ c) (conc : Bool) (done : List Cycle) (cy : Cycle)
+    (hwf : wellFormed true (done ++ [cy]) = true) (hdrain : cy.pushes.length < cy.pulls)
+    {s : CState} (hr : Reach (sys conc c true false (histOps (done ++ [cy])) none) s) (hfin : finished s = true) :
+    s.onDisk = 0 := by
+  have hnf := (reach_NoFault hr).2.2
+  have hnr : ¬ Reported s := fun ⟨o, ho, hio⟩ => hnf o ho hio
+  have hne : done ++ [cy] ≠ [] := by simp
+  obtain ⟨c0, rest, hcons⟩ := List.exists_cons_of_ne_nil hne
+  have hinv : HInv c true (done ++ [cy]) s := by
+    rw [hcons] at hwf hr ⊢
+    exact reach_HInv c true hc hwf hr
+  obtain ⟨done', cy', pre, n0, hH, hold, hcinv, hfin'⟩ := finished_view c true hinv hfin hnr
+  have hcy : cy' = cy := by
+    have := congrArg List.getLast? hH
+    simpa using this.symm
+  subst hcy
+  obtain ⟨hfiles, hcnt⟩ := finished_no_files hcinv
+    (fun o ho => hnf o (List.mem_of_mem_take ho)) hfin' hdrain
+  have hcnt' : cnt atReg s = 0 := by
+    rw [← cnt_proj (viewOf pre [] n0) s atReg (fun w hw => by simp [atReg, hold w hw])]
+    exact hcnt
+  have := (reach_DiskInv hr).2.2.2
+  have hfiles' : s.m.files = [] := hfiles
+  rw [hfiles', hcnt'] at this
+  simpa using this
+
 /-- **The executable statement of the C13 driver implies the statement of `history_fault_surfaces`**
     on the implementation's outputs: if `surfaceStatement` accepts the outputs of a program that
     `historyOf` recognises as the well-formed history `h`, then some call returned an error
